@@ -265,6 +265,50 @@ static int run_episodes(int argc, char **argv) {
     return vf_nviolations ? 1 : 0;
 }
 
+/* ------------------------------------------------------------------ staged mode
+ * --mode staged --readers R : (the lock has been pre-warmed with --prewarm) R readers take the lock and hold it; a writer then
+ * asks for it; the readers keep holding for a while AFTER the writer's request was invoked and watch whether the writer gets
+ * in; then they leave and the writer must get in.  Repeated --rounds times on the same lock (the reader counters move on by R
+ * each round, so the rounds walk across a counter boundary).  No timing verdict: exclusion is judged on the flags. */
+static struct { int readers; volatile int held, writer_invoked, writer_in, release; volatile int bad; } G;
+static void *staged_reader(void *a) {
+    (void)a; parsec_atomic_rwlock_rdlock(&L);
+    __atomic_add_fetch(&G.held, 1, __ATOMIC_SEQ_CST);
+    while (!__atomic_load_n(&G.writer_invoked, __ATOMIC_SEQ_CST)) sched_yield();
+    for (int k = 0; k < 200; k++) { if (__atomic_load_n(&G.writer_in, __ATOMIC_SEQ_CST)) G.bad = 1; sched_yield(); }
+    while (!__atomic_load_n(&G.release, __ATOMIC_SEQ_CST)) { if (__atomic_load_n(&G.writer_in, __ATOMIC_SEQ_CST)) G.bad = 1; sched_yield(); }
+    if (__atomic_load_n(&G.writer_in, __ATOMIC_SEQ_CST)) G.bad = 1;
+    __atomic_sub_fetch(&G.held, 1, __ATOMIC_SEQ_CST);
+    parsec_atomic_rwlock_rdunlock(&L); return NULL;
+}
+static void *staged_writer(void *a) {
+    (void)a; while (__atomic_load_n(&G.held, __ATOMIC_SEQ_CST) < G.readers) sched_yield();
+    __atomic_store_n(&G.writer_invoked, 1, __ATOMIC_SEQ_CST);
+    parsec_atomic_rwlock_wrlock(&L);
+    if (__atomic_load_n(&G.held, __ATOMIC_SEQ_CST) > 0) G.bad = 1;       /* readers still inside */
+    __atomic_store_n(&G.writer_in, 1, __ATOMIC_SEQ_CST);
+    for (int k = 0; k < 50; k++) sched_yield();
+    __atomic_store_n(&G.writer_in, 0, __ATOMIC_SEQ_CST);
+    parsec_atomic_rwlock_wrunlock(&L); return NULL;
+}
+static int run_staged(int argc, char **argv) {
+    int R = (int)vf_arg_ll(argc, argv, "--readers", 2); long rounds = vf_arg_ll(argc, argv, "--rounds", 8), done = 0;
+    if (R > 8) R = 8;
+    for (long r = 0; r < rounds && !vf_nviolations; r++) {
+        memset((void *)&G, 0, sizeof G); G.readers = R;
+        pthread_t rt[8], wt; for (int i = 0; i < R; i++) pthread_create(&rt[i], NULL, staged_reader, NULL);
+        pthread_create(&wt, NULL, staged_writer, NULL);
+        while (!__atomic_load_n(&G.writer_invoked, __ATOMIC_SEQ_CST)) sched_yield();
+        for (int k = 0; k < 400; k++) sched_yield();
+        __atomic_store_n(&G.release, 1, __ATOMIC_SEQ_CST);
+        for (int i = 0; i < R; i++) pthread_join(rt[i], NULL);
+        pthread_join(wt, NULL); done++; VF_TICK();
+        if (G.bad) vf_violation("rwlock:writer-with-reader", "staged round %ld: the writer held the lock while %d reader(s) that entered before its request were still inside", r, R);
+    }
+    vf_out("{\"type\":\"summary\",\"mode\":\"staged\",\"rounds\":%ld,\"readers\":%d,\"yield_hits\":%llu}", done, R, (unsigned long long)vf_yield_hits(PARSEC_VERIF_SITE_RWLOCK));
+    return vf_nviolations ? 1 : 0;
+}
+
 int main(int argc, char **argv) {
     (void)pad0;
     const char *mode = vf_arg(argc, argv, "--mode", "excl");
@@ -274,7 +318,7 @@ int main(int argc, char **argv) {
     long pw = vf_arg_ll(argc, argv, "--prewarm", 0);
     if (pw > 0) prewarm(pw);
     vf_yield_config((uint64_t)vf_arg_ll(argc, argv, "--seed", 1), (int)vf_arg_ll(argc, argv, "--yield", 0), (int)vf_arg_ll(argc, argv, "--yield-us", 0), 1ULL << PARSEC_VERIF_SITE_RWLOCK);
-    int rc = !strcmp(mode, "starve") ? run_starve(argc, argv) : !strcmp(mode, "episodes") ? run_episodes(argc, argv) : run_excl(argc, argv);
+    int rc = !strcmp(mode, "staged") ? run_staged(argc, argv) : !strcmp(mode, "starve") ? run_starve(argc, argv) : !strcmp(mode, "episodes") ? run_episodes(argc, argv) : run_excl(argc, argv);
     vf_heartbeat_stop();
     return rc;
 }
